@@ -4,7 +4,8 @@ from . import msgs as M
 from .build import E, T
 from .h_payload import rich_item, rich_story
 
-PAYLOAD_OPS = ('roStoryAppend', 'roStoryInsert', 'roStoryReplace', 'EAStoryInsert', 'EAStoryReplace',
+PAYLOAD_OPS = ('roStoryAppend', 'roStoryInsert', 'roStoryReplace', 'EAStoryInsert', 'EAStoryReplace', 'EAStoryInsert-end',
+               'roStoryInsert-last',
                'roItemInsert', 'roItemReplace', 'EAItemInsert', 'EAItemReplace', 'roMetadataReplace',
                'roDelete', 'roStorySend', 'roReplace')
 
@@ -19,7 +20,8 @@ def fresh_ro(ids, item_ids, c0):
 
 def make_msg(op, ids, item_ids, n0, c0, c1, n1=None):
     """The payload-carrying message (a new object with the same content on every call)."""
-    if op in ('roStoryAppend', 'roStoryInsert', 'roStoryReplace', 'EAStoryInsert', 'EAStoryReplace'):
+    if op in ('roStoryAppend', 'roStoryInsert', 'roStoryReplace', 'EAStoryInsert', 'EAStoryReplace', 'EAStoryInsert-end',
+              'roStoryInsert-last'):
         st = [rich_story(n0, c0, c1)]
         if n1 is not None:
             st = [rich_story(n1, c0, c1), rich_story(n0, c0, c1)]     # the edited one is the SECOND carried story
@@ -27,6 +29,8 @@ def make_msg(op, ids, item_ids, n0, c0, c1, n1=None):
                 'roStoryInsert': lambda: M.story_insert(ids[0], st),
                 'roStoryReplace': lambda: M.story_replace(ids[0], st),
                 'EAStoryInsert': lambda: M.ea_story_insert(ids[0], st),
+                'EAStoryInsert-end': lambda: M.ea_story_insert(None, st),
+                'roStoryInsert-last': lambda: M.story_insert(ids[1], st),
                 'EAStoryReplace': lambda: M.ea_story_replace(ids[0], st)}[op]()
     if op in ('roItemInsert', 'roItemReplace', 'EAItemInsert', 'EAItemReplace'):
         it = [rich_item(n0, c0, c1)]
@@ -37,7 +41,7 @@ def make_msg(op, ids, item_ids, n0, c0, c1, n1=None):
                 'EAItemInsert': lambda: M.ea_item_insert(ids[0], item_ids[0], it),
                 'EAItemReplace': lambda: M.ea_item_replace(ids[0], item_ids[0], it)}[op]()
     if op == 'roMetadataReplace':
-        return M.metadata_replace([T('roSlug', c1), T('roEdStart', c1),
+        return M.metadata_replace([T('roSlug', c1), T('roEdStart', c1), T('roEdDur', c0),      # roEdDur: not in the RO yet
                                    E('mosExternalMetadata', T('mosSchema', c1), E('mosPayload', T('Owner', c0)))])
     if op == 'roDelete':
         return M.ro_delete()
@@ -56,8 +60,8 @@ def _si(it):
 
 def later_edit(op, edit, ids, item_ids, n0, c1, second=False):
     """A later message that touches what the first one carried."""
-    carried_story = n0 if op in ('roStoryAppend', 'roStoryInsert', 'roStoryReplace', 'EAStoryInsert',
-                                 'EAStoryReplace', 'roReplace') else ids[0]
+    carried_story = n0 if op in ('roStoryAppend', 'roStoryInsert', 'roStoryReplace', 'EAStoryInsert', 'EAStoryInsert-end',
+                                 'roStoryInsert-last', 'EAStoryReplace', 'roReplace') else ids[0]
     inner = 'ci1' if second else 'ci0'
     if op in ('roItemInsert', 'roItemReplace', 'EAItemInsert', 'EAItemReplace'):
         inner = n0 if not second else item_ids[-1]
@@ -75,6 +79,7 @@ def later_edit(op, edit, ids, item_ids, n0, c1, second=False):
         return M.story_send(carried_story, body=[T('p', c1)], pre=[B.timing_block(dur='3')])
     if edit == 'metadata':
         return M.metadata_replace([T('roSlug', 'again2' if second else 'again'), T('roEdStart', None),
+                                   T('roEdDur', 'later2' if second else 'later'),
                                    E('mosExternalMetadata', T('mosSchema', c1), E('mosPayload', T('Owner', 'z')))])
     if edit == 'ro-delete':
         return M.ro_delete(msg_id='99')
